@@ -11,6 +11,11 @@ CP_KINDS = ["Utf8", "Integer", "Float", "Long", "Double", "Class", "String", "Fi
             "NameAndType", "MethodHandle", "MethodType", "Dynamic", "InvokeDynamic", "Module", "Package"]
 FRAME_KINDS = ["SameFrame", "SameLocals1StackItemFrame", "SameLocals1StackItemFrameExtended", "ChopFrame", "SameFrameExtended",
                "AppendFrame", "FullFrame"]
+WF_KINDS = ["SourceFile", "Signature", "Deprecated", "Synthetic", "SourceDebugExtension", "Exceptions", "InnerClasses",
+            "EnclosingMethod", "NestHost", "NestMembers", "PermittedSubclasses", "ConstantValue", "MethodParameters", "Record",
+            "RuntimeVisibleAnnotations", "RuntimeInvisibleAnnotations", "RuntimeVisibleParameterAnnotations",
+            "RuntimeInvisibleParameterAnnotations", "AnnotationDefault", "Code", "LineNumberTable", "LocalVariableTable",
+            "LocalVariableTypeTable", "StackMapTable", "Other"]
 EV_KINDS = ["Byte", "Char", "Double", "Float", "Integer", "Long", "Short", "Boolean", "String", "Enum", "Class", "Annotation", "Array"]
 
 
@@ -53,7 +58,9 @@ def _value_cause(lay, exp_bytes, got_bytes, x):
         return role, "cut-short"
     if role == "ClassFile.constant_pool_count" and g == len(x.get("constant_pool") or []) + 1:
         return role, "got=entries+1"
-    return role, "d=%+d" % (g - e)
+    # the offset from the prescribed value identifies a wrong length formula; a wrong count is usually a wrong width, after
+    # which the written number is not aligned with the cell and its value says nothing
+    return role, ("d=%+d" % (g - e) if role.endswith(".attribute_length") else "")
 
 
 def c20_sig(v):
@@ -83,11 +90,13 @@ def c20_sig(v):
         if got.get("read_panic"):
             return "impl|bytes|read-panics"
         if not got.get("read_ok"):
+            # every feature of the file that a known defect trips over (a file may have several: all are named, so that an
+            # entry of known_findings.json stops matching as soon as its own defect is the only one repaired)
             attrs = got.get("in_attrs") or []
-            cause = ("pool-has-long-or-double" if got.get("in_wide") else
-                     "has-MethodParameters" if "MethodParameters" in attrs else
-                     "modelled-attribute-name-in-foreign-location" if got.get("in_foreign") else "other")
-            return "impl|bytes|read-refused|" + cause
+            feats = (["pool-has-long-or-double"] if got.get("in_wide") else []) \
+                + (["has-MethodParameters"] if "MethodParameters" in attrs else []) \
+                + (["modelled-attribute-name-in-foreign-location"] if got.get("in_foreign") else [])
+            return "impl|bytes|read-refused|" + ("+".join(feats) or "other")
         if got.get("first_diff") != -1 or got.get("out_n") != got.get("n"):
             d = got.get("diff") or {}
             iv, ov = d.get("in_v", -1), d.get("out_v", -1)
@@ -96,7 +105,15 @@ def c20_sig(v):
             return "impl|bytes|length()-announces-another-size"
         if not got.get("out_cfkit_ok") or got.get("out_duke_ok") != got.get("in_duke_ok"):
             return "impl|bytes|other-readers-see-another-structure"
-        return "impl|bytes|raw-value-read-has-another-layout-than-the-file"
+        # the raw value the crate read, laid out by the specification, is not the file: name the first count / length
+        # field of the file (the independent parser's role) that the raw value does not have
+        ec, ic = exp.get("cells"), got.get("in_cells") or []
+        if isinstance(ec, list) and not got.get("in_foreign"):
+            for i, c in enumerate(ic):
+                if i >= len(ec) or list(ec[i]) != [c[1], c[2]]:
+                    return "impl|bytes|raw-value-read-lacks|%s" % c[0]
+            return "impl|bytes|raw-value-read-has-extra-fields" if len(ec) > len(ic) else "impl|bytes|raw-value-read-has-another-size"
+        return "impl|bytes|raw-value-read-has-another-size"
     return "impl|%s|other" % op
 
 
@@ -162,18 +179,19 @@ P = {
     "mc": [{"module": "MC_RawLayout", "cfg": "MC_RawLayout.cfg", "timeout": {"quick": 600, "thorough": 3000}}],
     "trace": {"module": "Trace_RawLayout", "cfg": "Trace_RawLayout.cfg"},
     "trace_s2i": 300,
-    "i2s_n": {"quick": 850, "thorough": 3200},
+    "i2s_n": {"quick": 850, "thorough": 8000},
     "classify_vec": c20_class,
     "classify_i2s": c20_class_i2s,
     "required_classes": ["attr/%s/%s" % (a, l) for a in ATTR_KINDS for l in LEVELS]
                         + ["cp/%s" % k for k in CP_KINDS]
                         + ["pool/empty", "pool/none", "pool/start", "pool/mid", "pool/end", "header", "pair", "incons"]
+                        + ["wf/%s" % k for k in WF_KINDS]
                         + ["frame/%s" % k for k in FRAME_KINDS] + ["ev/%s" % k for k in EV_KINDS],
     "signature": c20_sig,
     "corrupt": c20_corrupt,
     "rule": "S2I vectors are distinct TLC states of the bounded model (one whole ClassFile raw value each); I2S records are class files (every hand-written sample of the independent assembler under each of its standard encodings, javac output of JDK 8/11/17, in the thorough tier also the JDK sample) and seeded random raw values; each runs the real read / write / length and is compared byte by byte with the specification",
     "level_text": "The class-file layout of JVMS chapter 4 is written as one table (RawLayout.tla: field sequences with widths, count-prefix width of each table, nested structures, tag dispatch of the four tagged unions, attribute dispatch on the pool's Utf8 name, the pool slot rule, attribute_length = size of the following fields) for exactly the 18 structures, 17 constant kinds, 29 attribute kinds, 7 frame kinds, 9 verification types and 13 element-value kinds raw_class_file models; Encode, LenOf, Decode and the prescribed count/length fields are generic interpreters of that table. TLC checks on every case of the bounded universe (each attribute kind x 0..3 elements (x 0..3 in nested tables) x class/field/method/Code/record-component level x pools with a Long/Double before, between and after the names; every pool up to two constants of all kinds and up to three of Utf8/Long/Double; 0..3 interfaces x fields x methods x attributes; every frame x verification type x counts with tags at both ends of their ranges; element values nested to depth 2 in each of the five carriers; every ordered pair of attribute kinds; attributes found through a foreign name) that Decode(Encode(x)) = x, LenOf(x) = bytes of Encode(x), and that each count / attribute_length emitted is the declaratively prescribed one. Every case is replayed through ClassFile::{to_bytes, write, length, read} and the written bytes are compared byte for byte with the specification's (plus each count / length field cut out along the specification's cell widths, equality of the value read back, and for the well-formed families acceptance by the independent strict parser cfkit and by duke::read_class). Real class files (samples x encodings, javac corpus) are read and written back: TLC judges that every file the strict independent parser accepts is read, reproduced byte for byte with length() = size, and that the raw value the crate read - laid out by the specification - has the file's size and exactly the count / length fields the independent parser found in the file; seeded random raw values (all kinds at all levels, tables up to 6, numbers over their whole width, 25 % with two-slot constants) are judged the same way by trace validation.",
-    "level_note": "Layout conformance against a tabular specification plus byte equality on real files: TLA+ contributes the table-driven enumeration and a uniform judgement, not deeper reasoning. Bounded: MC tables have 0..3 elements and nesting depth 2; numbers in MC cases are small distinct values (the random family covers whole widths; u4 data are carried as two halves because TLC integers are 32 bit, u4 counts/lengths above 2^31 are not generated). Bytecode inside Code and the bodies of attributes the crate keeps as bytes (type annotations, unknown names) are opaque to the specification as they are to the crate. The comparison of count/length fields with the independent parser is skipped for files carrying a modelled attribute name in a location where JVMS Table 4.7-C does not define it; raw values of classes larger than 6000 bytes are not shipped to TLC (byte equality is still judged). Trusted: TLC, cfkit (independent parser/assembler: decides which inputs are well-formed and extracts the input's count/length spans), the JSON <-> raw_class_file struct conversion in c20.rs (by field name). Known findings (pool slot rule, NestMembers length, MethodParameters count width, attribute dispatch regardless of body/location) are matched by narrow signatures - first disagreeing cell and its offset from the prescribed value, or the refused file's feature; a class whose pool holds a Long/Double cannot be examined further until that defect is repaired (28 % of the corpus).",
+    "level_note": "Layout conformance against a tabular specification plus byte equality on real files: TLA+ contributes the table-driven enumeration and a uniform judgement, not deeper reasoning. Bounded: MC tables have 0..3 elements and nesting depth 2; numbers in MC cases are small distinct values (the random family covers whole widths; u4 data are carried as two halves because TLC integers are 32 bit, u4 counts/lengths above 2^31 are not generated). Bytecode inside Code and the bodies of attributes the crate keeps as bytes (type annotations, unknown names) are opaque to the specification as they are to the crate. The comparison of count/length fields with the independent parser is skipped for files carrying a modelled attribute name in a location where JVMS Table 4.7-C does not define it; raw values of classes larger than 40000 bytes are not shipped to TLC (byte equality is still judged). Trusted: TLC, cfkit (independent parser/assembler: decides which inputs are well-formed and extracts the input's count/length spans), the JSON <-> raw_class_file struct conversion in c20.rs (by field name). Known findings (pool slot rule, NestMembers length, MethodParameters count width, attribute dispatch regardless of body/location) are matched by narrow signatures - first disagreeing cell and its offset from the prescribed value, or the refused file's feature; a class file whose pool holds a Long/Double cannot be examined further until that defect is repaired (15 % of the corpus, and every sample under the two encodings that pad the pool).",
     "assumptions": ["TLC/SANY/CommunityModules", "cfkit strict parser = well-formedness of input class files; cfkit span map = count/length fields of a file",
                     "harness conversion JSON raw value <-> raw_class_file structs by field name (c20.rs)",
                     "bounded universe: tables of 0..3 elements, nesting depth 2, one focus structure per case",
